@@ -60,7 +60,7 @@ NOT_PROVED = ('Exactness when a reply that outlived its request (a late duplicat
               'a progress callback divides by zero while the lock is held), true thread interleavings of user calls with '
               'the packet thread, the info channel (memory enumeration).')
 
-HEADER = 'From CF Require Import Common.Bytes C06.Model.\nOpen Scope Z_scope.\n'
+HEADER = 'From CF Require Import Common.Bytes C06.Model C06.DeckModel.\nOpen Scope Z_scope.\n'
 
 R_LENS = [0, 1, 2, 19, 20, 21, 39, 40, 41, 59, 60, 61, 79, 80, 81, 100]
 W_LENS = [0, 1, 2, 24, 25, 26, 49, 50, 51, 74, 75, 76, 99, 100, 101]
@@ -104,10 +104,39 @@ def case_term(case, events=None):
     return 'run_case true %s [%s] %s' % (coqrun.zlist(case['plan']), '; '.join(ev_term(e) for e in evs), wins)
 
 
+def dev_term(ev):
+    k = ev[0]
+    if k == 'DR':
+        return 'DSOp (DRead %d %d %d %d)' % (ev[1], ev[2], ev[3], ev[4])
+    if k == 'DW':
+        return 'DSOp (DWrite %d %d %s %d)' % (ev[1], ev[2], coqrun.zlist(ev[3]), ev[4])
+    if k == 'D':
+        return 'DSDeliver %d%%nat' % ev[1]
+    t = ev_term(ev)
+    assert t.startswith('SOp ')
+    return 'DSOp (DEv %s)' % t[4:]
+
+
+def deck_case_term(case, events):
+    wins = '[' + '; '.join('(%d, %d, %d)' % tuple(w) for w in case['windows']) + ']'
+    return 'drun_case true %d %s [%s] %s' % (c06_mem.DECK_ID, coqrun.zlist(case['plan']),
+                                            '; '.join(dev_term(e) for e in events), wins)
+
+
+def is_deck_case(case):
+    return any(e[0] in ('DR', 'DW') for e in case['events'])
+
+
 def windows_of(events):
     ws = []
     for e in c06_mem.all_ops(events):
-        if e[0] == 'W':
+        if e[0] == 'DW':
+            w = [c06_mem.DECK_ID, max(0, e[1] + e[2] - 2), len(e[3]) + 4]
+            if w not in ws:
+                ws.append(w)
+        elif e[0] == 'DR':
+            pass
+        elif e[0] == 'W':
             lo = max(0, e[2] - 2)
             w = [e[1], lo, min(len(e[3]) + 4, 2 ** 32 - lo)]
             if w not in ws:
@@ -188,6 +217,65 @@ def gen_case(rng, style):
     return {'plan': plan, 'events': events, 'windows': windows_of(events)}
 
 
+BASES = [0x10000000, 0x20000000, 0x30000000]
+
+
+def gen_deck_case(rng, style):
+    """histories through the deck layer: DeckMemory.read / write on decks with different bases (one read and one
+    write may be outstanding at the same time), requests on other memories, replies delivered late / twice / out of
+    order, refusals, disconnects"""
+    plan = []
+    if style != 'clean':
+        p = rng.choice([0.0, 0.05, 0.15])
+        plan = [rng.randrange(1, 256) if rng.random() < p else 0 for _ in range(60)]
+    rig = c06_mem.Rig(plan)
+    events, delivered = [], set()
+    tok = [0]
+
+    def do(ev):
+        events.append(ev)
+        rig.do(ev)
+
+    for _ in range(rng.randrange(4, 26)):
+        undel = [k for k in range(len(rig.log)) if k not in delivered]
+        c = rng.random()
+        if c < 0.16 or not rig.log and c < 0.5:
+            n = rng.choice(R_LENS[:12]) if rng.random() < 0.8 else rng.randrange(0, 90)
+            do(['DR', rng.choice(BASES), rng.choice([0, 8, 0x40, 0x41, 100, 0xFFF0]), n, tok[0]])
+            tok[0] += 1
+        elif c < 0.32 or not rig.log:
+            n = rng.choice(W_LENS[:12]) if rng.random() < 0.8 else rng.randrange(0, 90)
+            do(['DW', rng.choice(BASES), rng.choice([0, 8, 0x40, 0x41, 100, 0xFFF0]),
+                [rng.randrange(256) for _ in range(n)], tok[0]])
+            tok[0] += 1
+        elif c < 0.37:
+            do(_gen_op(rng, [1, 2], rng.choice('RW'), 0))
+        elif c < 0.66 and undel:
+            k = rng.choice(undel[:3])          # the oldest few: replies of the read and the write interleave
+            delivered.add(k)
+            do(['D', k])
+        elif c < 0.74 and undel:
+            k = undel[-1]
+            delivered.add(k)
+            do(['D', k])
+        elif c < 0.90:
+            k = rng.randrange(len(rig.log) + 1)
+            if k < len(rig.log):
+                delivered.add(k)
+            do(['D', k])
+        elif c < 0.94 and style != 'clean':
+            do(_forged(rng, rig, [c06_mem.DECK_ID, 1]))
+        elif c < 0.97:
+            do(['X'])
+    for _ in range(60):
+        undel = [k for k in range(len(rig.log)) if k not in delivered]
+        if not undel:
+            break
+        delivered.add(undel[0])
+        do(['D', undel[0]])
+    return {'plan': plan, 'events': events, 'windows': windows_of(events)}
+
+
 def _gen_op(rng, ids, kind, depth, same=None):
     """a read or write; with some probability it carries a reaction: a request the listener issues from inside the
     notification (a retry of the same request, or another request, mostly on the same memory)"""
@@ -238,10 +326,10 @@ def _forged(rng, rig, ids):
 
 def nontrivial(case):
     evs = list(c06_mem.all_ops(case['events']))
-    cross = any((e[0] == 'R' and e[3] > 20) or (e[0] == 'W' and len(e[3]) > 25) for e in evs)
+    cross = any((e[0] in ('R', 'DR') and e[3] > 20) or (e[0] in ('W', 'DW') and len(e[3]) > 25) for e in evs)
     ds = [e[1] for e in evs if e[0] == 'D']
     dup = len(ds) != len(set(ds))
-    err = any(case['plan'][:sum(1 for e in evs if e[0] in 'RW') * 5])
+    err = any(case['plan'][:sum(1 for e in evs if e[0] in ('R', 'W', 'DR', 'DW')) * 5])
     drop = any(e[0] == 'X' for e in evs)
     return cross or dup or err or drop
 
@@ -263,6 +351,14 @@ def tie(ctx):
     n_gen = ctx.scale(700, 9000)
     for k in range(n_gen):
         cases.append(gen_case(ctx.rng, 'clean' if k % 4 == 0 else 'faulty'))
+    # the deck layer: random histories + the systematic ones of the oracle
+    n_deck = ctx.scale(250, 3000)
+    for k in range(n_deck):
+        cases.append(gen_deck_case(ctx.rng, 'clean' if k % 4 == 0 else 'faulty'))
+    for c in deck_systematic_cases():
+        c = dict(c)
+        c['windows'] = windows_of(c['events'])
+        cases.append(c)
     # systematic single transfers at every chunk boundary (in order, every reply twice)
     for n in R_LENS:
         evs = [['R', 1, 3, n]]
@@ -295,7 +391,7 @@ def tie(ctx):
     n_nested = 0
     for c in cases:
         ints, rig = run_impl(c)
-        terms.append(case_term(c, rig.flat))
+        terms.append(deck_case_term(c, rig.flat) if is_deck_case(c) else case_term(c, rig.flat))
         exp.append(ints)
         n_nested += len(rig.flat) - len(c['events'])
         if rig.obs_after_nested and len(anomalies) < 5:
@@ -342,6 +438,9 @@ def tie(ctx):
         # stale deliveries: marker 9 followed by freshness flag 0 on a 'D' event
     dist['stale_deliveries_in_first_300'] = sum(_count_stale(c) for c in cases[:300])
     dist['enumerated_schedules'] = n_enum
+    dist['deck_layer_histories'] = sum(1 for c in cases if is_deck_case(c))
+    dist['deck_reads'] = sum(1 for c in cases for e in c['events'] if e[0] == 'DR')
+    dist['deck_writes'] = sum(1 for c in cases for e in c['events'] if e[0] == 'DW')
     dist['requests_issued_from_inside_a_notification'] = n_nested
     return {
         'evaluations': len(cases),
@@ -407,6 +506,9 @@ class Judge:
         self.delivered = set()
         self.log_uid = []        # uid this bookkeeping attributes the n-th request packet (= n-th reply) to
         self.expect = {}
+        self.dops = {}           # deck layer: token -> the DeckMemory.read / write call and what was observed for it
+        self.dout = {'r': None, 'w': None}     # token of the outstanding deck read / write
+        self.drefusal = None     # the manager must refuse the deck call of this event ('operation ongoing')
 
     def flag(self, cls, detail, expected=None, observed=None, k=None):
         if self.fail is None:
@@ -455,6 +557,43 @@ class Judge:
             if r.get('last_a') == a:
                 r['tainted'].add(how)
 
+    def begin_deck_op(self, k, ev, u0):
+        kind = 'r' if ev[0] == 'DR' else 'w'
+        tok = ev[4]
+        d = {'kind': kind, 'base': ev[1], 'addr': ev[2], 'uid': u0, 'state': 'pending'}
+        self.dops[tok] = d
+        if self.dout[kind] is not None:
+            d['state'] = 'refused'
+            self.drefusal = tok
+            return
+        self.dout[kind] = tok
+        if kind == 'r':
+            self.begin_op(k, ['R', c06_mem.DECK_ID, ev[1] + ev[2], ev[3]], u0)
+        else:
+            self.begin_op(k, ['W', c06_mem.DECK_ID, ev[1] + ev[2], ev[3], True], u0)
+        if u0 in self.req:
+            self.req[u0]['deck'] = tok
+
+    def check_deck_note(self, k, kind, tok, a, data):
+        d = self.dops.get(tok)
+        if d is None or d['state'] != 'pending':
+            self.flag('deck_notified_twice', 'deck request %r (%s) notified (again): %s' % (tok, d and d['state'], kind), k=k)
+            return
+        d['state'] = 'done'
+        if self.dout[d['kind']] == tok:
+            self.dout[d['kind']] = None
+        r = self.req.get(d['uid'])
+        want_kind = {'drok': ('r', 'rok'), 'drfail': ('r', 'rfail'), 'dwok': ('w', 'wok'), 'dwfail': ('w', 'wfail')}[kind]
+        if d['kind'] != want_kind[0] or r is None or r.get('deck') != tok or r['state'] != 'done' or r.get('result') != want_kind[1]:
+            self.flag('deck_notification_without_completion', 'deck callback %s for request %r, but the transfer it '
+                      'stands for has not ended that way' % (kind, tok), k=k)
+            return
+        if a != d['addr']:
+            self.flag('deck_%s_notification_wrong_address' % ('read' if d['kind'] == 'r' else 'write'), '%s of deck request %r (base 0x%X, address 0x%X) reports address '
+                      '0x%X' % (kind, tok, d['base'], d['addr'], a & 0xFFFFFFFFFFFF), d['addr'], a, k)
+        if kind == 'drok' and data != r['note'][4]:
+            self.flag('deck_read_data_not_passed_through', 'deck read %r hands over other bytes than the transfer returned' % tok, k=k)
+
     def begin_op(self, k, ev, u0):
         """bookkeeping of a read()/write() call at the moment it is made (top level or from inside a listener)"""
         if ev[0] == 'R':
@@ -499,8 +638,6 @@ class Judge:
             if ev[0] == 'P' and ev[1] == 2 and ev[2] and not self.wq.get(ev[2][0]):
                 cls = 'dup_final_write_ack'
             self.flag(cls, 'the write lock is still held after the event', 'free', 'held', k)
-        if rig.last_raised and ev[0] != 'P':
-            self.flag('handler_raises', 'an exception left %r' % (ev[:2],), 'no exception', 'raised', k)
         if rig.last_hung:
             self.flag('blocks_on_lock', 'the call blocks for ever on the write lock', 'served', 'blocked', k)
         for item in rig.stream[self.seen:]:
@@ -510,9 +647,26 @@ class Judge:
                 self.begin_op(k, item[1], item[2])
             elif item[0] == 'opret':
                 self.end_op(k, item[1], item[2], item[3])
+            elif item[0] == 'dop':
+                self.begin_deck_op(k, item[1], item[2])
+            elif item[0] == 'dopret':
+                if item[1][0] == 'DR':
+                    self.end_op(k, ['R', c06_mem.DECK_ID], item[2], item[3])
+            elif item[0] == 'dn':
+                self.check_deck_note(k, item[1], item[2], item[3], item[4])
             else:
                 self.check_note(k, ev, item[1], item[2] if len(item) > 2 else None)
         self.seen = len(rig.stream)
+        if self.drefusal is not None:
+            if not rig.last_raised:
+                self.flag('deck_request_accepted_while_one_outstanding', 'the manager took a second deck %s while one '
+                          'is outstanding' % ev[0], k=k)
+            self.drefusal = None
+        elif rig.last_raised and ev[0] != 'P':
+            self.flag('handler_raises', 'an exception left %r' % (ev[:2],), 'no exception', 'raised', k)
+        for tok, d in self.dops.items():
+            if d['state'] == 'pending' and (d['uid'] not in self.req or self.req[d['uid']]['state'] == 'done'):
+                self.flag('deck_request_not_notified', 'the transfer of deck request %r ended, its callbacks were not called' % tok, k=k)
         for i, u in self.handover.items():
             if self.req[u]['state'] == 'pending':
                 self.flag('write_started_before_predecessor_finished', 'a packet of the next queued write on memory %d was '
@@ -524,6 +678,7 @@ class Judge:
                 self.flag('not_failed_on_disconnect', 'requests %r got no notification when the link dropped' % left, k=k)
             self.rpend.clear()
             self.wq.clear()
+            self.dout = {'r': None, 'w': None}
     def check_packet(self, k, chan, data, pre):
         if len(data) > 30:
             self.flag('packet_too_long', 'request packet of %d bytes' % len(data), '<= 30', len(data), k)
@@ -596,6 +751,7 @@ class Judge:
             return
         r['state'] = 'done'
         r['result'] = kind
+        r['note'] = note
         i = r['id']
         if note[2] != i or note[3] != r['addr'] or kind[0] != r['kind']:
             self.flag('notification_wrong_arguments', repr(note[:4]), k=k)
@@ -652,8 +808,23 @@ class Judge:
         if left:
             self.flag('request_never_completes', 'every reply was delivered, requests %r have no notification' % left)
             return
-        ids = sorted({r['id'] for r in self.req.values()}) or [1]
+        ids = sorted({r['id'] for r in self.req.values()} - ({c06_mem.DECK_ID} if self.dops else set())) or [1]
         rig.plan = []          # the probe is answered without refusals
+        if self.dops:
+            t0 = max(self.dops) + 1
+            base = len(rig.log)
+            probe = [['DR', BASES[0], 0x10, 45, t0], ['DW', BASES[1], 5, [(13 * j) % 256 for j in range(30)], t0 + 1],
+                     ['D', base + 1], ['D', base], ['D', base + 3], ['D', base + 2], ['D', base + 4]]
+            for ev in probe:
+                self.case['events'].append(ev)
+                self.step(len(self.case['events']) - 1, ev)
+                if self.fail:
+                    return
+            got = [self.dops[t0]['state'], self.dops[t0 + 1]['state']]
+            if got != ['done', 'done']:
+                self.flag('deck_not_served_after_history', 'after the history a deck read and a deck write end as %r' % got,
+                          ['done', 'done'], got)
+                return
         for i in ids[:3]:
             base = len(rig.log)
             probe = [['R', i, 3, 45], ['D', base], ['D', base + 1], ['D', base + 2],
@@ -765,6 +936,29 @@ def systematic_cases(deep):
     return out
 
 
+def deck_systematic_cases():
+    """one deck read and one deck write outstanding at the same time on decks with different bases, replies of the
+    two interleaved in every order class; a read (write) after a write (read) at another base; refusals"""
+    A, B, C = BASES
+    out = []
+    d60 = [(5 * j + 3) % 256 for j in range(60)]
+    rd = [['D', 0], ['D', 4]]            # read of 30 bytes: requests 0 and (after its first reply) one more
+    # read on A delayed, write to B completes in between (and the other way round)
+    out.append({'plan': [], 'events': [['DR', A, 0x40, 30, 0], ['DW', B, 8, d60, 1], ['D', 1], ['D', 2], ['D', 3], ['D', 0], ['D', 4]]})
+    out.append({'plan': [], 'events': [['DW', B, 8, d60, 0], ['DR', A, 0x40, 30, 1], ['D', 1], ['D', 2], ['D', 0], ['D', 3], ['D', 4]]})
+    out.append({'plan': [], 'events': [['DR', A, 0x40, 30, 0], ['DW', B, 8, d60, 1], ['D', 0], ['D', 1], ['D', 2], ['D', 3], ['D', 4]]})
+    # sequential: write to B after a read on A has completed, read on C after a write to B
+    out.append({'plan': [], 'events': [['DR', A, 0x40, 30, 0], ['D', 0], ['D', 1], ['DW', B, 8, d60, 1], ['D', 2], ['D', 3], ['D', 4],
+                                       ['DR', C, 0, 45, 2], ['D', 5], ['D', 6], ['D', 7]]})
+    # refusals: the write / the read is refused while the other one is outstanding
+    out.append({'plan': [0, 9], 'events': [['DR', A, 0x40, 30, 0], ['DW', B, 8, d60, 1], ['D', 1], ['D', 0], ['D', 2]]})
+    out.append({'plan': [9], 'events': [['DR', A, 0x40, 30, 0], ['DW', B, 8, d60, 1], ['D', 0], ['D', 1], ['D', 2], ['D', 3]]})
+    # second read while one is outstanding: refused by the manager; link drop with both outstanding
+    out.append({'plan': [], 'events': [['DR', A, 0, 45, 0], ['DR', B, 0, 5, 1], ['DW', B, 0, d60, 2], ['DW', A, 0, [1], 3],
+                                       ['X'], ['DR', B, 8, 5, 4], ['D', 2], ['D', 0]]})
+    return out
+
+
 def high_level_cases():
     """MemoryTester and DeckMemoryManager on the real Memory: the pattern is read back and written exactly."""
     fails = []
@@ -865,8 +1059,10 @@ def high_level_cases():
 def oracle(ctx, deep=False):
     fails = []
     n = 0
-    cases = corpus_cases() + systematic_cases(deep or ctx.thorough)
+    cases = corpus_cases() + systematic_cases(deep or ctx.thorough) + deck_systematic_cases()
     rng = ctx.rng
+    for k in range(ctx.scale(200, 2500) * (3 if deep else 1)):
+        cases.append(gen_deck_case(rng, 'clean' if k % 3 == 0 else 'faulty'))
     for k in range(ctx.scale(500, 6000) * (3 if deep else 1)):
         cases.append(gen_case(rng, 'clean' if k % 3 == 0 else 'faulty'))
     keys = set()
